@@ -372,8 +372,24 @@ inductive ReadPreamble where
   | auto | never | always
 deriving DecidableEq, Repr
 
-/-- `detect_preamble` on the first buffer fill; `none` = `UnexpectedEof` -/
+/-- tag bytes of File Meta Information Group Length (0002,0000), which follow the magic code -/
+def glTag : Bytes := [2, 0, 0, 0]
+
+/-- `detect_preamble` on the first buffer fill; `none` = `UnexpectedEof`.
+Repaired behaviour (finding C09 `dicm-at-128-without-preamble`): `DICM` at offset 128 is not taken
+for the end of a preamble when the buffer itself starts with `DICM` + the group length tag and
+offset 132 does not. The unrepaired code is `detectPreambleOld`. -/
 def detectPreamble (buf : Bytes) : Option ReadPreamble :=
+  if buf.length < 4 then none
+  else if buf.length ≥ 132 ∧ (buf.drop 128).take 4 = magic then
+    if (buf.take 4 = magic ∧ (buf.drop 4).take 4 = glTag) ∧
+       ¬ (buf.length ≥ 136 ∧ (buf.drop 132).take 4 = glTag) then some .never
+    else some .always
+  else if buf.take 4 = magic then some .never
+  else some .auto
+
+/-- `detect_preamble` before the repair -/
+def detectPreambleOld (buf : Bytes) : Option ReadPreamble :=
   if buf.length < 4 then none
   else if buf.length ≥ 132 ∧ (buf.drop 128).take 4 = magic then some .always
   else if buf.take 4 = magic then some .never
@@ -397,15 +413,19 @@ def openMeta (d : Defaults) (byPath : Bool) (cap : Nat) (bs : Bytes) : Except RE
 /-- `PrimitiveValue::to_str` on a `Str`: `trim_end_matches([' ', '\0'])` -/
 def toStr (s : Bytes) : Bytes := (s.reverse.dropWhile fun b => b == 0x20 || b == 0).reverse
 
-/-- end of `read_parts_with_all_options_impl`: empty media storage UIDs are taken from the data set
-(the group length is *not* recomputed there) -/
-def inferSop (t : Table) (sopClass sopInst : Option Bytes) : Table :=
+/-- end of `read_parts_with_all_options_impl`: empty media storage UIDs are taken from the data set.
+`inferSopOld` is the code as found (the group length is *not* recomputed: finding C09
+`stale-group-length-after-sop-inference`); `inferSop` the repaired behaviour (recomputed). -/
+def inferSopOld (t : Table) (sopClass sopInst : Option Bytes) : Table :=
   let t1 := if (trimEnd t.cls).isEmpty then
       match sopClass with | some c => { t with cls := toStr c } | none => t
     else t
   if (trimEnd t1.inst).isEmpty then
     match sopInst with | some c => { t1 with inst := toStr c } | none => t1
   else t1
+
+def inferSop (t : Table) (sopClass sopInst : Option Bytes) : Table :=
+  update (inferSopOld t sopClass sopInst)
 
 /-- `write_all` / `write_to_file` framing -/
 def fileBytes (metaBytes ds : Bytes) : Bytes := List.replicate 128 0 ++ magic ++ metaBytes ++ ds
